@@ -84,3 +84,19 @@ package privval
 //@     | pv.LastSignState.Step == old(pv.LastSignState.Step) && pv.LastSignState.Signature == old(pv.LastSignState.Signature) && pv.LastSignState.SignBytes == old(pv.LastSignState.SignBytes) &&
 //@     | pH == old(pH) && pR == old(pR) && pS == old(pS) && pSig == old(pSig) && pSB == old(pSB))
 //@   ensures disk: pH == pv.LastSignState.Height && pR == pv.LastSignState.Round && pS == pv.LastSignState.Step && pSig == pv.LastSignState.Signature && pSB == pv.LastSignState.SignBytes
+
+// signProposal: the same two ways, for step 1 (propose).
+//@ func FilePV.signProposal
+//@   requires disk: pH == pv.LastSignState.Height && pR == pv.LastSignState.Round && pS == pv.LastSignState.Step && pSig == pv.LastSignState.Signature && pSB == pv.LastSignState.SignBytes
+//@   assigns proposal.Signature, proposal.Timestamp, pv.LastSignState.Height, pv.LastSignState.Round, pv.LastSignState.Step, pv.LastSignState.Signature, pv.LastSignState.SignBytes, pH, pR, pS, pSig, pSB
+//@   ensures released: result == nil ==> (
+//@     | (hrsLess(old(pv.LastSignState.Height), old(pv.LastSignState.Round), old(pv.LastSignState.Step), proposal.Height, proposal.Round, 1) &&
+//@     |  pv.LastSignState.Height == proposal.Height && pv.LastSignState.Round == proposal.Round && pv.LastSignState.Step == 1 &&
+//@     |  pv.LastSignState.Signature == proposal.Signature && pH == proposal.Height && pR == proposal.Round && pS == 1 && pSig == proposal.Signature && pSB == pv.LastSignState.SignBytes) ||
+//@     | (old(pv.LastSignState.Height) == proposal.Height && old(pv.LastSignState.Round) == proposal.Round && old(pv.LastSignState.Step) == 1 &&
+//@     |  proposal.Signature == old(pv.LastSignState.Signature) && pv.LastSignState.SignBytes == old(pv.LastSignState.SignBytes) && pSB == old(pSB) && pSig == old(pSig) &&
+//@     |  pH == old(pH) && pR == old(pR) && pS == old(pS)))
+//@   ensures refused: result != nil ==> (proposal.Signature == old(proposal.Signature) && pv.LastSignState.Height == old(pv.LastSignState.Height) && pv.LastSignState.Round == old(pv.LastSignState.Round) &&
+//@     | pv.LastSignState.Step == old(pv.LastSignState.Step) && pv.LastSignState.Signature == old(pv.LastSignState.Signature) && pv.LastSignState.SignBytes == old(pv.LastSignState.SignBytes) &&
+//@     | pH == old(pH) && pR == old(pR) && pS == old(pS) && pSig == old(pSig) && pSB == old(pSB))
+//@   ensures disk: pH == pv.LastSignState.Height && pR == pv.LastSignState.Round && pS == pv.LastSignState.Step && pSig == pv.LastSignState.Signature && pSB == pv.LastSignState.SignBytes
